@@ -116,13 +116,24 @@ def run(idx, rep, tier):
             outer_idiom(idx, rep, rule, kind)
         if kind == "BlockDiag":
             txt = nospace(fi.node)
-            zipped = f"zip({a}.Ms,{a}.multiplicities)" in txt
-            repl = any(isinstance(n, ast.BinOp) and isinstance(n.op, ast.Mult) and isinstance(n.left, ast.List) for n in ast.walk(fi.node))
-            cat = any(df.is_xnp_call(c) == "concat" for c in df.calls(fi.node))
-            ok = zipped and repl and cat
-            rep.decide(ok, "rule-algebra", construct, "concatenates each block's diagonal repeated by its multiplicity" if ok else
-                       f"multiplicities {'zipped' if zipped else 'NOT zipped with the blocks'}, {'replicated' if repl else 'NOT replicated'}, {'concatenated' if cat else 'NOT concatenated'}",
-                       detail="" if ok else "blocks", locs=[rule.loc])
+            uses_mult = f"{a}.multiplicities" in txt
+            # each block's diagonal is repeated by its multiplicity: `[d] * m`, or a nested comprehension `... for _ in range(m)`
+            zips = [n for n in ast.walk(fi.node) if isinstance(n, ast.Call) and isinstance(n.func, ast.Name) and n.func.id == "zip" and any(nospace(x) == f"{a}.multiplicities" for x in n.args)]
+            mvars = {e.id for n in ast.walk(fi.node) if isinstance(n, ast.comprehension) and any(z is n.iter for z in zips) and isinstance(n.target, ast.Tuple)
+                     for e in n.target.elts[-1:] if isinstance(e, ast.Name)}
+            repl_list = any(isinstance(n, ast.BinOp) and isinstance(n.op, ast.Mult) and isinstance(n.left, ast.List) and (set(df.names_in(n.right)) & mvars) for n in ast.walk(fi.node))
+            repl_loop = any(isinstance(n, ast.comprehension) and isinstance(n.iter, ast.Call) and nospace(n.iter.func) == "range" and n.iter.args and (set(df.names_in(n.iter.args[0])) & mvars)
+                            for n in ast.walk(fi.node))
+            cat = any(df.is_xnp_call(c) in ("concat", "concatenate") for c in df.calls(fi.node))
+            loads = {n.id for n in ast.walk(fi.node) if isinstance(n, ast.Name) and isinstance(n.ctx, ast.Load)}
+            if not uses_mult or (mvars and not (mvars & loads)):
+                rep.refuted("rule-algebra", construct, "the multiplicities of the blocks are never used (" + ("not read" if not uses_mult else f"`{sorted(mvars)[0]}` is bound and ignored") +
+                            "): repeated blocks contribute their diagonal once", detail="blocks", locs=[rule.loc])
+            else:
+                ok = bool(zips) and (repl_list or repl_loop) and cat
+                rep.decide(True if ok else None, "rule-algebra", construct, "concatenates each block's diagonal repeated by its multiplicity" if ok else
+                           f"multiplicities {'zipped' if zips else 'not zipped with the blocks'}, {'replicated' if (repl_list or repl_loop) else 'replication not recognised'}, "
+                           f"{'concatenated' if cat else 'no concatenation found'}", locs=[rule.loc])
         if kind == "Sum":
             ok = any(isinstance(c.func, ast.Name) and c.func.id == "sum" for c in df.calls(fi.node))
             rep.decide(ok, "rule-algebra", construct, "sums the terms' diagonals" if ok else "does not sum the terms' diagonals", detail="" if ok else "sum", locs=[rule.loc])
@@ -272,36 +283,68 @@ def product_like(idx, fi):
     return None
 
 
+def axis_placement(e):
+    """index expression  [None]*X + [slice(None)] + [None]*Y  (lists or tuples): 'row' when X is the factor index and Y counts the
+    remaining factors (factor i on axis i), 'col' for the mirror image, None when the expression has another shape"""
+    parts = []
+
+    def flat(x):
+        if isinstance(x, ast.BinOp) and isinstance(x.op, ast.Add):
+            flat(x.left)
+            flat(x.right)
+        else:
+            parts.append(x)
+    if isinstance(e, ast.Call) and isinstance(e.func, ast.Name) and e.func.id in ("tuple", "list") and len(e.args) == 1:
+        e = e.args[0]
+    flat(e)
+    if len(parts) != 3:
+        return None
+
+    def none_run(x):
+        if isinstance(x, ast.BinOp) and isinstance(x.op, ast.Mult):
+            seq, cnt = (x.left, x.right) if isinstance(x.left, (ast.List, ast.Tuple)) else (x.right, x.left)
+            if isinstance(seq, (ast.List, ast.Tuple)) and len(seq.elts) == 1 and isinstance(seq.elts[0], ast.Constant) and seq.elts[0].value is None:
+                return cnt
+        return None
+
+    mid = parts[1]
+    is_mid = isinstance(mid, (ast.List, ast.Tuple)) and len(mid.elts) == 1 and nospace(mid.elts[0]) == "slice(None)"
+    c1, c3 = none_run(parts[0]), none_run(parts[2])
+    if not is_mid or c1 is None or c3 is None:
+        return None
+    if isinstance(c1, ast.Name) and c1.id in df.names_in(c3) and any(isinstance(x, ast.Sub) for x in ast.walk(c3)):
+        return "row"
+    if isinstance(c3, ast.Name) and c3.id in df.names_in(c1) and any(isinstance(x, ast.Sub) for x in ast.walk(c1)):
+        return "col"
+    return None
+
+
 def outer_idiom(idx, rep, rule, kind):
     fi = rule.func
     construct = rule.role
-    asg = df.assignments(fi.node)
-    comp = None
-    for name, vals in asg.items():
-        for v, p, st in vals:
-            if isinstance(v, ast.ListComp) and "slice(None)" in nospace(v):
-                comp = v
-    if comp is None:
-        rep.undecided("rule-algebra", construct, "outer-product index idiom not found")
-        return
-    elt = nospace(comp.elt)
-    gen = comp.generators[0]
-    iv = gen.target.id if isinstance(gen.target, ast.Name) else "?"
-    n = nospace(gen.iter)
-    m = n[len("range(len("):-2] if n.startswith("range(len(") else None
-    row_major = m is not None and elt == f"[None]*{iv}+[slice(None)]+[None]*(len({m})-{iv}-1)"
-    col_major = m is not None and elt == f"[None]*(len({m})-{iv}-1)+[slice(None)]+[None]*{iv}"
+    # the index idiom may live in the rule or in a helper it calls
+    fns, seen, work = [fi], {id(fi.node)}, [fi]
+    while work:
+        g = work.pop()
+        for c in df.calls(g.node):
+            r = idx.resolve_expr(g.module, c.func, g)
+            if r is not None and r.kind == "funcs" and getattr(r.val[-1], "rule", None) is None and r.val[-1].module is fi.module and id(r.val[-1].node) not in seen:
+                seen.add(id(r.val[-1].node))
+                fns.append(r.val[-1])
+                work.append(r.val[-1])
+    placements = [pl for g in fns for n in df.body_nodes(g.node) if isinstance(n, (ast.BinOp, ast.Call)) for pl in [axis_placement(n)] if pl]
     red = product_like(idx, fi)
     want_red = "product" if kind == "Kronecker" else "sum"
     flat = ".reshape(-1)" in nospace(fi.node)
-    if col_major:
+    if "col" in placements:
         rep.refuted("rule-algebra", construct, "factor i is placed on axis n-1-i: the flattened outer product is in column-major (reversed Kronecker) order", detail="axis-order", locs=[rule.loc])
         return
-    if not row_major:
-        rep.undecided("rule-algebra", construct, f"index idiom `{elt}` not recognised", locs=[rule.loc])
+    if "row" not in placements:
+        rep.undecided("rule-algebra", construct, "outer-product index idiom not recognised", locs=[rule.loc])
         return
     ok = red == want_red and flat
-    rep.decide(ok, "rule-algebra", construct, f"outer {'product' if kind == 'Kronecker' else 'sum'} with factor i on axis i, row-major flatten: reduction is {red}, reshape(-1) {'present' if flat else 'missing'}"
+    rep.decide(ok if (ok or red in ("product", "sum")) else None, "rule-algebra", construct,
+               f"outer {'product' if kind == 'Kronecker' else 'sum'} with factor i on axis i, row-major flatten: reduction is {red}, reshape(-1) {'present' if flat else 'missing'}"
                + ("" if ok else f"; required reduction {want_red}"), detail="" if ok else "reduction", locs=[rule.loc])
 
 
